@@ -1487,6 +1487,7 @@ static int state_settled(const char *st)
 }
 
 static int g_wrap_bnd;           /* wrapcaps=bnd */
+static int g_set_lite;           /* setlite=1 */
 static int g_snap_each;          /* snap=each: compare the snapshot after every rejected set */
 
 /* compare the socket with the baseline snapshot; a difference is a side effect of a rejected set */
@@ -1644,6 +1645,13 @@ static void set_cells(struct ctx *cx)
                 if (t == T_B && !strcmp(cx->name, "xcm.blocking") && vals[vi].p[0] && lens[li] != 1 &&
                     !state_settled(cx->state))
                     continue;
+                /* setlite=1: the wrong-length family only with the first two values of the attribute's
+                   own type, and other types with one value at lengths 0 and natural */
+                if (g_set_lite && !cx->reduced) {
+                    if (full ? (vi >= 2 && lens[li] != vals[vi].n)
+                             : (vi >= 1 || (lens[li] != vals[vi].n && lens[li] != 0)))
+                        continue;
+                }
                 int valid_before = cx->snap_valid;
                 set_cell(cx, &vals[vi], lens[li], each);
                 if (!each && valid_before && !cx->snap_valid)
@@ -2189,6 +2197,7 @@ int main(int argc, char **argv)
     g_own_names = !strcmp(param_get(cell, "names", nm, sizeof nm, "full"), "own");
     g_wrap_bnd = !strcmp(param_get(cell, "wrapcaps", nm, sizeof nm, "all"), "bnd");
     g_snap_each = !strcmp(param_get(cell, "snap", nm, sizeof nm, "type"), "each");
+    g_set_lite = param_int(cell, "setlite", 0) != 0;
     (void)b;
     if (run)
         snprintf(g_rundir, sizeof g_rundir, "%s", run);
